@@ -208,7 +208,7 @@ def object_sets(repo, n):
 def native_kind(row):
     """Python twin of the C35 clauses on a native row (for minimisation only)."""
     o = row["o"]
-    k = cc.py_failed(row["c"], o["rt"], meta=False, tags=False)
+    k = cc.py_failed(row["c"], o["rt"], meta=False, tags=False, count=False)
     if k is not None:
         return "rt:" + k
     s = o["sha"]
@@ -225,7 +225,7 @@ def native_kind(row):
         return "objects"
     if s["staged"] != s["oneshot"]:
         return "staged"
-    k = cc.py_failed(row["c"], o["rt2"], meta=False, tags=False)
+    k = cc.py_failed(row["c"], o["rt2"], meta=False, tags=False, count=False)
     if k is not None:
         return "rt2:" + k
     return None
@@ -349,7 +349,19 @@ def native_once(ctx, h, idx, root, names):
                 try:
                     m2 = B.Branch.open(os.path.join(work, "src2")).push(B.Branch.open(gpath2), lossy=True).revidmap
                     m1.update(m2)
-                    sha["staged"] = [m1[cc.revid(r)][0].decode() for r in range(1, n + 1)]
+                    # (a revision whose git commit another revision already produced -- same tree, parents and
+                    # metadata -- is not transferred again and not in the map: ask the source's object store)
+                    from breezy.git.object_store import get_object_store
+                    st2 = get_object_store(B.Branch.open(os.path.join(work, "src2")).repository)
+                    import dulwich.repo
+                    g2 = dulwich.repo.Repo(gpath2)
+                    try:
+                        with st2.lock_read():
+                            ids = [m1[cc.revid(r)][0] if cc.revid(r) in m1 else st2._lookup_revision_sha1(cc.revid(r))
+                                   for r in range(1, n + 1)]
+                        sha["staged"] = [i.decode() if i in g2.object_store else "absent" for i in ids]
+                    finally:
+                        g2.close()
                 except Exception as e:  # noqa
                     if sha["ok"]:
                         sha.update(cc.failure(e))
